@@ -131,7 +131,7 @@ FASTOR_INLINE void reverse() {
 FASTOR_INLINE T sum() const {
 
     if ((size()==0) || (size()==1)) return _data[0];
-    using V = SIMDVector<T,simd_abi_type>;
+    using V = SIMDVector<remove_all_t<T>,simd_abi_type>;
     V vec = static_cast<T>(0);
     V _vec_in;
     FASTOR_INDEX i = 0;
@@ -139,7 +139,7 @@ FASTOR_INLINE T sum() const {
         _vec_in.load(&_data[i], is_aligned());
         vec += _vec_in;
     }
-    T scalar = static_cast<T>(0);
+    remove_all_t<T> scalar = static_cast<T>(0);
     for (; i< size(); ++i) {
         scalar += _data[i];
     }
@@ -150,14 +150,14 @@ FASTOR_INLINE T product() const {
 
     if ((size()==0) || (size()==1)) return _data[0];
 
-    using V = SIMDVector<T,simd_abi_type>;
+    using V = SIMDVector<remove_all_t<T>,simd_abi_type>;
     FASTOR_INDEX i = 0;
 
     V vec = static_cast<T>(1);
     for (; i< ROUND_DOWN(size(),V::Size); i+=V::Size) {
         vec *= V(&_data[i], is_aligned());
     }
-    T scalar = static_cast<T>(1);
+    remove_all_t<T> scalar = static_cast<T>(1);
     for (; i< size(); ++i) {
         scalar *= _data[i];
     }
